@@ -590,4 +590,24 @@ def ok (t : Trace) : Bool :=
   paired t.ev && onlyEnvOps t.ev && (deadLetters t.ev == failures t.ev)
 end C13
 
+/-! ### C19 — on_tell_result exactly once after a tell, never after an ask -/
+namespace C19
+
+def isTellOp (ev : List Ev) (oid : Nat) : Bool :=
+  match opOf ev oid with
+  | some (.tell, _, _) => true
+  | _ => false
+
+/-- walk over adjacent events: a handler of a tell that returns is followed at once by `tellResult` of the
+    same message; `tellResult` occurs nowhere else (in particular never for an ask) -/
+def adjacent (all : List Ev) : List Ev → Bool
+  | .handlerEnd m .ok :: .tellResult m' :: rest => isTellOp all m && (m == m') && adjacent all rest
+  | .handlerEnd m .ok :: rest => !isTellOp all m && adjacent all rest
+  | .tellResult _ :: _ => false
+  | _ :: rest => adjacent all rest
+  | [] => true
+
+def ok (t : Trace) : Bool := adjacent t.ev t.ev
+end C19
+
 end Rsactor.Monitor
